@@ -1,5 +1,6 @@
 """C14 - invalid colour input is reported, never raised."""
 import itertools
+import os
 
 TOKENS = ["rgb(", "rgba(", "hsl(", "hsla(", "var(--x)", "(", ")", ",", " ", "%", "/", "-", "+", ".", "1", "255", "300", "0.5",
           "1e3", "nan", "inf", "deg", "#", "fff", "ggg", "red", "inherit", "é", "\x00"]
@@ -87,7 +88,43 @@ def judge_value(x):
 _ALONE = {}
 
 
+REPORT_VALUES = ["nope", "#12", "rgb(1,2", "", (300, 0, 0), [1, 2], (None, 0, 0), (10, 20, 30, "x"), (0.5, 0.5, 0.5, None), ("a", "b", "c"),
+                 [], (1, 2, 3, 4, 5), [float("nan"), 0, 0], "var(--x)", "inherit"]
+
+
+def judge_bulk_report(i, as_bg):
+    """An invalid value inside a bulk call that also writes the report: still reported as invalid, the rest processed."""
+    import contextlib
+    import io
+    import shutil
+    import tempfile
+
+    from cm_colors import make_readable_bulk
+
+    x = REPORT_VALUES[i]
+    case = {"kind": "bulk_report", "i": i, "as_bg": as_bg}
+    entry = ("#777777", x) if as_bg else (x, "#ffffff")
+    d = tempfile.mkdtemp(prefix="c14-", dir="/var/tmp")
+    cwd = os.getcwd()
+    try:
+        os.chdir(d)
+        with contextlib.redirect_stdout(io.StringIO()):
+            res = make_readable_bulk([("#000", "#fff"), entry, ("#111", "#fff", True)], save_report=True)
+    except BaseException as e:  # noqa
+        return [dict(sig="invalid_input/bulk_with_report_raises/%s" % type(e).__name__, case=case, observed=repr(e),
+                     msg="make_readable_bulk([..., %r, ...], save_report=True) raised %s: %s" % (entry, type(e).__name__, e))]
+    finally:
+        os.chdir(cwd)
+        shutil.rmtree(d, ignore_errors=True)
+    if len(res) != 3 or str(res[1][1]).lower() in ("readable", "very readable") or res[0][1] != "very readable" or res[2][1] != "very readable":
+        return [dict(sig="invalid_input/bulk_with_report_misreports", case=case, observed=repr(res),
+                     msg="make_readable_bulk([..., %r, ...], save_report=True) -> %r" % (entry, res))]
+    return []
+
+
 def judge_case(case):
+    if case.get("kind") == "bulk_report":
+        return judge_bulk_report(case["i"], case["as_bg"])
     if case.get("kind") == "hexlike":
         return judge_value(case["str"]) or judge_hexlike(case["str"])
     if "str" in case:
@@ -195,6 +232,12 @@ def run(ctx):
         ctx.add_violations(vs)
     ctx.sub("hex_shaped_strings", states=hn, transitions=hn, evaluations=hn, traces=hn, distinct_nontrivial=hn, exhaustive=True, chars=HEXCHARS, max_length=6)
     ctx.sample({"subcheck": "hex-shaped", "value": "#-f-f-f"})
+    k = 0
+    for i in range(len(REPORT_VALUES)):
+        for as_bg in (False, True):
+            ctx.add_violations(judge_bulk_report(i, as_bg))
+            k += 1
+    ctx.sub("invalid_entries_in_bulk_with_report", states=k, transitions=k, evaluations=k, traces=k, distinct_nontrivial=k, exhaustive=True)
     jobs = [((), 1)]
     for a in ELEMS:
         for b in ELEMS:
